@@ -1982,7 +1982,7 @@ fn probe_dropstress(args: &Args) {
             use signal_hook::iterator::{Signals, SignalsInfo};
             let fds0 = count_open_fds();
             let mut leaked_rounds = 0usize;
-            for _ in 0..iters {
+            for round in 0..iters {
                 let (h, inst): (signal_hook::iterator::Handle, Box<dyn Send>) = if raw {
                     let s = SignalsInfo::<WithRawSiginfo>::new(&[libc::SIGUSR1]).unwrap();
                     (s.handle(), Box::new(s))
@@ -1990,14 +1990,31 @@ fn probe_dropstress(args: &Args) {
                     let s = Signals::new(&[libc::SIGUSR1]).unwrap();
                     (s.handle(), Box::new(s))
                 };
-                let go = Arc::new(AtomicBool::new(false));
-                let g2 = Arc::clone(&go);
+                // the last two owners are two handle clones (the instance goes first): symmetric drops,
+                // released together by a spin barrier; every other round the instance is one of the two
+                let h2 = h.clone();
+                let ready = Arc::new(AtomicUsize::new(0));
+                let r2 = Arc::clone(&ready);
+                let inst_last = round % 2 == 1;
+                let mut inst = Some(inst);
+                if !inst_last {
+                    drop(inst.take());
+                }
                 let t = std::thread::spawn(move || {
-                    while !g2.load(Ordering::SeqCst) {}
+                    r2.fetch_add(1, Ordering::SeqCst);
+                    while r2.load(Ordering::SeqCst) < 2 {}
                     drop(h);
                 });
-                go.store(true, Ordering::SeqCst);
-                drop(inst);
+                if inst_last {
+                    drop(h2);
+                    ready.fetch_add(1, Ordering::SeqCst);
+                    while ready.load(Ordering::SeqCst) < 2 {}
+                    drop(inst.take());
+                } else {
+                    ready.fetch_add(1, Ordering::SeqCst);
+                    while ready.load(Ordering::SeqCst) < 2 {}
+                    drop(h2);
+                }
                 t.join().unwrap();
                 if signal_hook_registry::verif::registry_content().0.iter().any(|(sg, a)| *sg == libc::SIGUSR1 && !a.is_empty()) {
                     leaked_rounds += 1;
